@@ -434,7 +434,8 @@ def emit_item(rust, rel, it):
     fl = []
     for f in it["fields"]:
         fe = "none" if f["endian"] is None else "(some .%s)" % f["endian"]
-        fl.append('    .mk "%s" %s %s %d (%s) %d %d' % (f["name"], fe, lean_magic(f["magic"]), f["pb"], f["kind"], f["pst"], f["pa"]))
+        # the field name is a comment only: it is not part of the compared data
+        fl.append('    /- %s -/ .mk "" %s %s %d (%s) %d %d' % (f["name"], fe, lean_magic(f["magic"]), f["pb"], f["kind"], f["pst"], f["pa"]))
     out.append("def %s : Layout :=\n  .mk %s %s [%s] %s" % (
         ln, e, lean_magic(it["magic"]), ("\n" + ",\n".join(fl)) if fl else "", "true" if it["complete"] else "false"))
     return "\n".join(out)
